@@ -27,7 +27,7 @@ def shape_from_tlc(scn: dict, k: int) -> dict:
             if key == 23 and mode == "emb":
                 mode = "sev"  # unsevered text inside the manifest is outside the properties
             mem[KEYNAME[key]] = [mode, envgen.ALGS[(kk + j + 1) % 5], sup]
-        sh = {"walg": envgen.ALGS[kk % 5], "wsup": lv["w"], "seq": [1, 24, 256, 65536][kk % 4], "pad": None,
+        sh = {"walg": envgen.ALGS[kk % 5], "wsup": lv["w"], "seq": [1, 24, 256, 65536][kk % 4], "pad": None, "supform": kk % 3,
               "mem": mem, "cid": None, "version": None, "pay": [["#p0", 20 + kk % 7, "hex", kk]] if kk % 2 else [],
               "deps": [], "imgs": []}
         if child is not None:
